@@ -29,7 +29,7 @@ pub unsafe extern "C" fn mlock(addr: *const libc::c_void, len: libc::size_t) -> 
     let from = MLOCK_FAIL_FROM.load(Ordering::SeqCst);
     if from >= 0 && n >= from {
         MLOCK_REFUSED.fetch_add(1, Ordering::SeqCst);
-        *libc::__errno_location() = libc::ENOMEM;
+        *libc::__errno_location() = MLOCK_ERRNO.load(Ordering::SeqCst);
         return -1;
     }
     libc::syscall(libc::SYS_mlock, addr, len) as libc::c_int
@@ -42,10 +42,31 @@ pub unsafe extern "C" fn munlock(addr: *const libc::c_void, len: libc::size_t) -
     libc::syscall(libc::SYS_munlock, addr, len) as libc::c_int
 }
 
+static MLOCK_ERRNO: std::sync::atomic::AtomicI32 = std::sync::atomic::AtomicI32::new(libc::ENOMEM);
+static MLOCK_ARMED: AtomicUsize = AtomicUsize::new(0);
+
+/// `fail_from >= 0` arms the injection: the errno of the refusal cycles through the values mlock(2) documents
+/// (ENOMEM, EAGAIN, EPERM), and a generous watchdog alarm is set: an operation that answers a refusal by never
+/// returning (retrying a non-transient error) ends in SIGALRM, which the fatal-signal reporter attributes to it
 pub fn mlock_reset(fail_from: i64) {
     MLOCK_CALLS.store(0, Ordering::SeqCst);
     MLOCK_REFUSED.store(0, Ordering::SeqCst);
+    if fail_from >= 0 {
+        let n = MLOCK_ARMED.fetch_add(1, Ordering::SeqCst);
+        MLOCK_ERRNO.store([libc::ENOMEM, libc::EAGAIN, libc::EPERM][n % 3], Ordering::SeqCst);
+        unsafe { libc::alarm(60) };
+    } else {
+        unsafe { libc::alarm(0) };
+    }
     MLOCK_FAIL_FROM.store(fail_from, Ordering::SeqCst);
+}
+pub fn mlock_errno_name() -> &'static str {
+    match MLOCK_ERRNO.load(Ordering::SeqCst) {
+        libc::ENOMEM => "ENOMEM",
+        libc::EAGAIN => "EAGAIN",
+        libc::EPERM => "EPERM",
+        _ => "other",
+    }
 }
 pub fn mlock_calls() -> usize {
     MLOCK_CALLS.load(Ordering::SeqCst)
